@@ -38,7 +38,7 @@ m['notes'] = (
     "known_findings.json (assembled from known/*.json by lib/merge.py, never written at run time). Additional coverage targets %s "
     "(./check X0n --tier quick|thorough; statements, models, theorems, translators and harnesses of their own, see notes/X0n.md: "
     "X01 Router.handle_request integration model composing C01/C02/C03/C05/C14 with a refinement theorem, X02 settings, X03 renderers, "
-    "X04 asset overrides, X05 authentication policies, X06 predicates, X07 WSGI sub-application mounting, X08 route prefixes) are not "
+    "X04 asset overrides, X05 authentication policies, X06 predicates, X07 WSGI sub-application mounting, X08 route prefixes, X09 dotted-name resolution) are not "
     "among the listed properties and therefore not in `checks`."
 ) % (len(fixes), '; '.join(fixes), ', '.join(extras))
 json.dump(m, open(os.path.join(V, 'MANIFEST.json'), 'w'), indent=1)
